@@ -27,7 +27,7 @@ LEVEL = "exploration"
 RULE = ("cases = random class hierarchies (2-7 classes, depth <= 4, multiple bases, plain mixin classes, "
         "OvldBase or metaclass=OvldMC roots, create_subclass) x per class 0-3 same-named definitions for each of two "
         "method names, extend_super on the first definition with p=0.7 (on a later one with p=0.04); every class is "
-        "probed with 7 values after every class statement; distinct_nontrivial = distinct hierarchies (shape + "
+        "probed with 10 values (instances, classes, lists of both) after every class statement; distinct_nontrivial = distinct hierarchies (shape + "
         "definition placement) having multiple inheritance and an extend_super over >= 2 bases that define the name")
 ASSUMPTIONS = [
     "parameter types are builtin classes in single-inheritance chains (bool < int < object), so the model's resolution is unambiguous",
@@ -38,9 +38,23 @@ REPORT_COUNTERS = ["hierarchies", "class_statements", "probes", "extend_super_2b
                    "create_subclass", "self_identity_checked", "call_next_sites", "recurse_sites", "mc_roots", "f21_region_probes",
                    "marked_mixins_merged_by_empty_class"]
 
-TYPES = ["int", "str", "float", "bytes", "list", "bool", "object"]
+TYPES = ["int", "str", "float", "bytes", "list", "bool", "object", "type[int]", "type[object]"]
 PY = {"int": int, "str": str, "float": float, "bytes": bytes, "list": list, "bool": bool, "object": object}
-CORPUS = [1, "s", 2.5, b"b", [1, "s"], True, None]
+CORPUS = [1, "s", 2.5, b"b", [1, "s"], True, None, int, bool, [bool, "s", str]]     # classes are passed as arguments too
+
+
+def _app(t, v):
+    if t.startswith("type["):
+        return isinstance(v, type) and issubclass(v, PY[t[5:-1]])
+    return isinstance(v, PY[t])
+
+
+def _rank(t, v):
+    """specificity of an applicable type for v: type[X] is narrower than every plain class a class object is an
+    instance of (object); among type[...] the closer base wins"""
+    if t.startswith("type["):
+        return 100 + len(v.__mro__) - v.__mro__.index(PY[t[5:-1]])
+    return len(type(v).__mro__) - type(v).__mro__.index(PY[t])
 NAMES = ["f", "g"]
 
 
@@ -315,8 +329,7 @@ class Model:
                 raise _Usage()
             return ("m", d["mid"], inst)
         tab = e[1]
-        app = [(len(type(v).__mro__) - type(v).__mro__.index(PY[t]), m) for t, m in tab.items()
-               if isinstance(v, PY[t])]
+        app = [(_rank(t, v), m) for t, m in tab.items() if _app(t, v)]
         app.sort(reverse=True)
         if below is not None:
             app = [a for a in app if a[0] < below]
